@@ -147,6 +147,15 @@ def cancelledBefore (cancel : Option Nat) (i : Nat) : Bool :=
   | some k => k < i
   | none => false
 
+/-- `retries` after one more failed attempt: reset to 0 by each `Next` when `ResetOnSuccess`
+    (:178-180), then `retries++` in the error callback (:185) -/
+def retriesAfter (cfg : RetryCfg) (retries : Nat) (o : Outcome) : Nat :=
+  (if cfg.reset && o.hasValues then 0 else retries) + 1
+
+/-- `shouldRetry = opts.MaxRetries == 0 || retries <= opts.MaxRetries` (:186) -/
+def shouldRetry (cfg : RetryCfg) (retries : Nat) : Bool :=
+  cfg.maxRetries == 0 || decide (retries ≤ cfg.maxRetries)
+
 /-- the loop, entered for attempt `i` with `retries` failures charged so far.
     `for !subscriptions.IsClosed()` (:160) is always true: nobody holds `subscriptions` before the
     subscribe function returns. -/
@@ -157,17 +166,15 @@ def retryLoop (cfg : RetryCfg) (sub : Ctx) (cancel : Option Nat) : List Outcome 
   | o :: rest, i, retries =>
     if cancelledBefore cancel i then .stop [.error sub ctxCanceled]            -- :162-167
     else
-      let retries₁ := if cfg.reset && o.hasValues then 0 else retries           -- :178-180, on every Next
       match o.fin with
       | .complete =>                                                              -- :188-190, then `break` :216
         .after (o.nexts sub ++ [.complete (o.finCtx sub)]) i (.stop [])
       | .error e =>
-        let retries₂ := retries₁ + 1                                            -- :185
-        if cfg.maxRetries == 0 || retries₂ ≤ cfg.maxRetries then               -- :186
-          if cfg.delay && cancelledBefore cancel (i + 1) then                   -- :199-208
+        if shouldRetry cfg (retriesAfter cfg retries o) then                     -- :184-186, :196
+          if cfg.delay && cancelledBefore cancel (i + 1) then                    -- :197-208
             .after (o.nexts sub) i (.stop [.error sub ctxCanceled])
-          else .after (o.nexts sub) i (retryLoop cfg sub cancel rest (i + 1) retries₂)   -- `continue` :211
-        else .after (o.nexts sub ++ [.error sub (.user e)]) i (.stop [])        -- :213, with subscriberCtx
+          else .after (o.nexts sub) i (retryLoop cfg sub cancel rest (i + 1) (retriesAfter cfg retries o))   -- `continue` :211
+        else .after (o.nexts sub ++ [.error sub (.user e)]) i (.stop [])         -- :213, with subscriberCtx
 
 def retry (cfg : RetryCfg) (sub : Ctx) (cancel : Option Nat) (outs : List Outcome) : Result :=
   retryLoop cfg sub cancel outs 1 0
